@@ -286,7 +286,10 @@ def check_weights_and_gaussian(run, A):
     ok = False
     for r in full:
         v = strip_views(call_arg(r, 1))
-        ok = v.op == 'binop' and v.args[0] == 'Div' and const_val(v.args[1]) == 1 and strip_views(v.args[2]).op == 'sub' and const_val(strip_views(v.args[2]).args[1]) == -2
+        from ..walk import shape_dim as _sd
+        sd_ = _sd(v.args[2]) if v.op == 'binop' and v.args[0] == 'Div' and const_val(v.args[1]) == 1 else None
+        # K is the class-axis length of the affiliation, however it is read (affiliation.shape[-2], `*_, K, _ = affiliation.shape`)
+        ok = sd_ is not None and sd_[1] == -2
     run.check(ok, 'R-SAN', 'weights tied over classes are uniform 1/K', fn.loc(), '', 'the class-tied branch does not return np.full([K, 1], 1 / K) with K = affiliation.shape[-2]',
               construct=f'R-SAN::{q}::uniform')
     c01.check_weights_and_initialisers(run, A)
